@@ -323,6 +323,14 @@ func ruleStEffectOnce(c *Ctx, r *Reporter) {
 					}
 				}
 				if call, ok := ins.(*ssa.Call); ok && ins != opCall {
+					if staticName(call) == "errors.Is" && len(call.Call.Args) == 2 && sameValue(resolveLoad(call.Call.Args[0]), opCall.(ssa.Value)) {
+						switch g := globalLoad(call.Call.Args[1]); {
+						case g == a.w.errRotating:
+							sc.BoolVals[v] = rw.opResult == 5
+						case g != nil:
+							sc.BoolVals[v] = false
+						}
+					}
 					if _, isParam := call.Call.Value.(*ssa.Parameter); isParam && call.Type().String() == "bool" {
 						sc.BoolVals[v] = rw.retryable // the retry predicate handed in by the caller
 					}
